@@ -14,6 +14,8 @@ import FordModel.Use
 import FordModel.Lemmas.UseSpec
 import FordModel.Lemmas.Use
 import FordModel.Lemmas.UseHost
+import FordModel.UseBind
+import FordModel.Lemmas.UseBind
 import FordModel.Generated.C06
 namespace Ford.C06
 open Ford Ford.Use
@@ -396,6 +398,186 @@ example :
     let c : Scope := wProg (mkUse "m1".toList [])
     isTopo [a, b, c] [] ["m0".toList, "m1".toList, ['p']] = true ∧
     aget (getTabs (run 3 [a, b, c] ["m0".toList, "m1".toList, ['p']]) ['p']).all ['w'] = some ("m0".toList, ['v']) := by
+  decide
+
+/-! ### Which module a USE statement refers to (`find_used_modules`)
+
+  `bindName g exts n` is the scan `for candidate in chain(modules, external_modules): if
+  n.lower() == candidate.name.lower(): bind; break`; `exts` are the `ExternalModule` stubs of
+  `settings.extra_mods` (iso_fortran_env, omp_lib, mpi, ... and the project's own entries);
+  `bindG` / `bindNs` is the project after that pass, which the driver then runs. -/
+
+/-- **A module of the project is never shadowed by an external entry of the same name**: if the
+    project defines a module whose name is the one in the USE statement (compared
+    case-insensitively), the statement is bound to that module (the first such one) - for EVERY
+    list of external modules, whatever names it contains, in whatever order and however often.
+    (F2018 14.2.2: without module nature, a name that denotes both an intrinsic and a
+    nonintrinsic module refers to the nonintrinsic one.) -/
+theorem use_binds_project_module_first (g : List Scope) (exts : List ExtMod) (n : Str) (p : Scope)
+    (h : g.find? (fun m => m.isMod && lower m.name == lower n) = some p) :
+    bindName g exts n = .project p :=
+  bindName_of_projMatch g exts n p h
+
+/-- ... and conversely an external entry is used only when no module of the project has that name:
+    then it is the first external entry of that name, and without one the name stays unbound
+    (`correlate` skips it). -/
+theorem use_binds_external_only_without_project_module (g : List Scope) (exts : List ExtMod) (n : Str) :
+    (∀ e, bindName g exts n = .external e →
+        (∀ m ∈ g, m.isMod = true → lower m.name ≠ lower n) ∧
+        exts.find? (fun x => lower x.name == lower n) = some e) ∧
+    (bindName g exts n = .unbound →
+        (∀ m ∈ g, m.isMod = true → lower m.name ≠ lower n) ∧ ∀ e ∈ exts, lower e.name ≠ lower n) := by
+  cases hp : projMatch g n with
+  | some p =>
+    rw [bindName_of_projMatch g exts n p hp]
+    constructor
+    · intro e h; cases h
+    · intro h; cases h
+  | none =>
+    rw [bindName_of_noproj g exts n hp]
+    cases he : exts.find? (fun x => lower x.name == lower n) with
+    | some e0 =>
+      constructor
+      · intro e h
+        cases h
+        exact ⟨projMatch_none g n hp, rfl⟩
+      · intro h; cases h
+    | none =>
+      constructor
+      · intro e h; cases h
+      · intro _
+        refine ⟨projMatch_none g n hp, fun e hm => ?_⟩
+        have := List.find?_eq_none.mp he e hm
+        simpa using this
+
+/-- **After binding every remaining USE names a module of the project by its declared name**, so
+    the exact look-up of the correlation loop (`Use.findMod`) cannot miss it because of the case
+    of either spelling; statements bound to an external stub or left unbound import nothing. -/
+theorem bound_uses_name_project_modules (g : List Scope) (exts : List ExtMod) (s : Scope)
+    (hs : s ∈ bindG g exts) (u : UseA) (hu : u ∈ s.uses) :
+    ∃ p ∈ g, p.isMod = true ∧ u.mod = p.name := by
+  unfold bindG at hs
+  obtain ⟨s0, _, rfl⟩ := List.mem_map.mp hs
+  exact bindUses_resolved g exts s0.uses u hu
+
+/-- **The external stubs have no influence on any name table**: for a project whose module names
+    are spelled in one case (`LowerNames`), running the correlation on the project as bound by
+    `find_used_modules` - with ANY list of external entries - gives exactly the state of the
+    plain model `runN`, about which all theorems above speak (modules, programs and contained
+    procedures alike; any order).  In particular a project module called like an entry of
+    `extra_mods` exports to its users exactly as any other module. -/
+theorem external_stubs_leave_tables_alone (g : List Scope) (exts : List ExtMod) (ns : List Nested)
+    (h : LowerNames g ns) (k : Nat) (order : List Str) :
+    runN k (bindG g exts) (bindNs g exts ns) order = runN k g ns order :=
+  runN_bound g exts ns h k order
+
+/-- The scopes `find_used_modules` does not reach obtain nothing from their USE statements (the tree
+    as it is: bodies of ABSTRACT interfaces, finding C06-abstract-interface-body-use-unbound): their
+    table stays the table they start from, for every state, kind and host table. -/
+theorem unreached_scope_imports_nothing (g : List Scope) (exts : List ExtMod) (unreached : List Str)
+    (ns : List Nested) (y : Nested) (hy : y ∈ bindNsU g exts unreached ns)
+    (hu : unreached.contains y.scope.name = true) (g' : List Scope) (st : State) (k : Nat) (hostAll : Table) :
+    correlateNested g' st k hostAll y.scope = nestedStart k hostAll y.scope := by
+  unfold bindNsU at hy
+  obtain ⟨x, _, rfl⟩ := List.mem_map.mp hy
+  by_cases hc : unreached.contains x.scope.name = true
+  · simp only [hc, if_true]
+    rfl
+  · simp only [hc] at hu ⊢
+    exact absurd hu hc
+
+/-- ... and once every interface body is reached (after fixes/C06-interface-body-uses.diff the harness
+    passes no unreached scope) the bound project is `bindNs`, i.e. the one
+    `external_stubs_leave_tables_alone` speaks about. -/
+theorem every_scope_reached_repaired (g : List Scope) (exts : List ExtMod) (ns : List Nested) :
+    bindNsU g exts [] ns = bindNs g exts ns :=
+  bindNsU_nil g exts ns
+
+/-- Kernel-evaluated instance of the finding and of its repair: module `m0` declares the public
+    variable `v`; the body `s` of an abstract interface of module `m1` says `use m0`.  As the code
+    is (`s` unreached) the body's variable table stays empty; once reached it holds `v`. -/
+theorem abstract_body_use_unbound_witness :
+    let m0 : Scope := { name := ['m', '0'], isMod := true, defPub := true, pubNames := [], privNames := [],
+                        decls := [{ name := ['v'], kind := 3, accs := [] }], uses := [] }
+    let m1 : Scope := { name := ['m', '1'], isMod := true, defPub := true, pubNames := [], privNames := [],
+                        decls := [{ name := ['s'], kind := 1, accs := [] }], uses := [] }
+    let s : Scope := { name := ['s'], isMod := false, defPub := true, pubNames := [], privNames := [],
+                       decls := [], uses := [mkUse ['M', '0'] []] }
+    let ns : List Nested := [{ root := ['m', '1'], host := [], scope := s }]
+    let order : List Str := [['m', '1'], ['m', '0']]
+    (getTabs (runN 3 (bindG [m0, m1] []) (bindNsU [m0, m1] [] [['s']] ns) order) ['s']).all = [] ∧
+    (getTabs (runN 3 (bindG [m0, m1] []) (bindNsU [m0, m1] [] [] ns) order) ['s']).all
+      = [(['v'], (['m', '0'], ['v']))] := by
+  decide
+
+/-- Kernel-evaluated instance of finding C06-generic-interface-body-use-not-a-dependency: `m0`
+    declares the type `t`, `m1` re-exports it (`use m0`), the body `s` of a generic interface of `m2`
+    says `use m1`.  `get_deps` does not follow the bodies of generic interfaces, so FORD correlates
+    `m2` in the first layer, before `m1`: that order is not `isTopoN` (the hypothesis of
+    `nested_tables_exact_partial`) and the body's type table stays empty; in an order that counts
+    the body's USE statement it holds `t`. -/
+theorem generic_body_use_not_a_dependency_witness :
+    let m0 : Scope := { name := ['m', '0'], isMod := true, defPub := true, pubNames := [], privNames := [],
+                        decls := [{ name := ['t'], kind := 2, accs := [] }], uses := [] }
+    let m1 : Scope := { name := ['m', '1'], isMod := true, defPub := true, pubNames := [], privNames := [],
+                        decls := [], uses := [mkUse ['m', '0'] []] }
+    let m2 : Scope := { name := ['m', '2'], isMod := true, defPub := true, pubNames := [], privNames := [],
+                        decls := [{ name := ['g'], kind := 0, accs := [] }], uses := [] }
+    let s : Scope := { name := ['s'], isMod := false, defPub := true, pubNames := [], privNames := [],
+                       decls := [], uses := [mkUse ['m', '1'] []] }
+    let g := [m0, m1, m2]
+    let ns : List Nested := [{ root := ['m', '2'], host := ['m', '2'], scope := s }]
+    let asFord : List Str := [['m', '0'], ['m', '2'], ['m', '1']]
+    let topo : List Str := [['m', '0'], ['m', '1'], ['m', '2']]
+    isTopo g [] asFord = true ∧ isTopoN g ns [] asFord = false ∧ isTopoN g ns [] topo = true ∧
+    (getTabs (runN 2 (bindG g []) (bindNs g [] ns) asFord) ['s']).all = [] ∧
+    (getTabs (runN 2 (bindG g []) (bindNs g [] ns) topo) ['s']).all = [(['t'], (['m', '0'], ['t']))] := by
+  decide
+
+/-- The scan the model mirrors is the one in the working tree (regenerated from
+    ford/fortran_project.py on every run): `chain(modules, external_modules)` - the project's
+    `modules` before its `extModules` - and the assignment is followed by `break` (first match). -/
+theorem binding_scan_is_source_scan :
+    Generated.C06.bindingChain = chainOrder ∧
+    Generated.C06.bindingChainArgs =
+      [['m', 'o', 'd', 'u', 'l', 'e', 's'], ['e', 'x', 't', 'M', 'o', 'd', 'u', 'l', 'e', 's']] ∧
+    Generated.C06.bindingFirstMatch = true := by
+  decide
+
+/-- No entry of the built-in table `ford.settings.INTRINSIC_MODS` (regenerated from the working
+    tree) can take a USE statement away from a project module of that name. -/
+theorem builtin_stubs_never_hide_project_module (g : List Scope) (n : Str) (p : Scope)
+    (h : g.find? (fun m => m.isMod && lower m.name == lower n) = some p) :
+    bindName g (Generated.C06.intrinsicModNames.map (fun x => { name := x })) n = .project p :=
+  bindName_of_projMatch g _ n p h
+
+/-- Kernel-evaluated instance: the project's own `omp_lib` (spelled `Omp_Lib`) next to the stub of
+    the same name - a plain USE and one in another case are bound to the project's module, whose
+    public variable arrives in the program; a name only the stub list knows is external, any
+    other unbound. -/
+theorem project_module_beats_stub_witness :
+    let m : Scope := { name := ['O', 'm', 'p', '_', 'L', 'i', 'b'], isMod := true, defPub := true, pubNames := [],
+                       privNames := [], decls := [{ name := ['v'], kind := 3, accs := [] }], uses := [] }
+    let p : Scope := { name := ['p'], isMod := false, defPub := true, pubNames := [], privNames := [], decls := [],
+                       uses := [mkUse ['O', 'M', 'P', '_', 'l', 'i', 'b'] []] }
+    let exts : List ExtMod := [{ name := ['m', 'p', 'i'] }, { name := ['o', 'm', 'p', '_', 'l', 'i', 'b'] }]
+    (bindG [m, p] exts).map (fun s => s.uses.map (·.mod)) = [[], [['O', 'm', 'p', '_', 'L', 'i', 'b']]] ∧
+    aget (getTabs (run 3 (bindG [m, p] exts) [['O', 'm', 'p', '_', 'L', 'i', 'b'], ['p']]) ['p']).all ['v']
+      = some (['O', 'm', 'p', '_', 'L', 'i', 'b'], ['v']) ∧
+    (bindName [m, p] exts ['M', 'P', 'I']).tag = ['e', ':', 'm', 'p', 'i'] ∧
+    (bindName [m, p] exts ['x']).tag = ['u'] := by
+  decide
+
+/-- Counter-example kept by the code as it is (finding C06-intrinsic-nature-binds-project-module):
+    USE_RE drops the module nature, so `use, intrinsic :: iso_fortran_env` reaches
+    `find_used_modules` exactly like `use iso_fortran_env` and is bound to a project module of
+    that name, although F2018 14.2.2 makes it refer to the intrinsic module. -/
+theorem intrinsic_nature_ignored_witness :
+    parseUseStmt ['u', 's', 'e', ',', ' ', 'i', 'n', 't', 'r', 'i', 'n', 's', 'i', 'c', ' ', ':', ':', ' ', 'm', '1']
+      = parseUseStmt ['u', 's', 'e', ' ', 'm', '1'] ∧
+    parseUseStmt ['u', 's', 'e', ',', ' ', 'n', 'o', 'n', '_', 'i', 'n', 't', 'r', 'i', 'n', 's', 'i', 'c', ' ', ':', ':', ' ', 'm', '1']
+      = parseUseStmt ['u', 's', 'e', ' ', 'm', '1'] ∧
+    parseUseStmt ['u', 's', 'e', ' ', 'm', '1'] = some (['m', '1'], []) := by
   decide
 
 /-! ### Tie of the scanners to the regular expressions in the source -/
